@@ -16,7 +16,9 @@ fi
 rc=0
 for pid in "$@"; do
   out=$(cd "$here" && VERIF_OUT="$tmp/out" ./check "$pid" --repo "$tmp/repo" 2>&1)
-  if echo "$out" | grep -q "^VIOLATION property=$pid"; then
+  if echo "$out" | grep -q "analysis-error_FactError"; then
+    echo "MUTANT-DOES-NOT-COMPILE $pid $(basename "$patch")"; rc=3
+  elif echo "$out" | grep -q "^VIOLATION property=$pid"; then
     echo "DETECTED $pid $(basename "$patch"): $(echo "$out" | grep -m1 -B2 '^VIOLATION' | head -1 | cut -c1-200)"
   else
     echo "MISSED $pid $(basename "$patch"): $(echo "$out" | tail -1)"; rc=1
